@@ -181,6 +181,22 @@ Definition tasks_view (ts : list rtask) : list (N * N) :=
   map (fun t => (N_of_state (r_st t), N_of_status (r_stat t))) ts.
 Definition cmded_view (ts : list rtask) : list N := map (fun p => N.of_nat (fst p)) (targets ts).
 
+Definition is_configure (e : cev) : bool := match e with CONFIGURE => true | _ => false end.
+Definition no_targets (ts : list rtask) : bool := match targets ts with [] => true | _ :: _ => false end.
+
+(* the transition body ran to the end of the task command *)
+Definition cmd_body (e : cev) (oc : list outc) (s : sys) : sys * step_obs :=
+  let src := N_of_estate (s_env s) in
+  let ts' := tasks_after e (s_ts s) oc in
+  if res_ok (cmd_result (s_ts s) oc)
+  then (mkSys (ev_dst e) ts' (s_ncalls s),
+        mkSO (N_of_estate (ev_dst e)) false false [src; N_of_estate (ev_dst e)]
+             (cmded_view (s_ts s)) (tasks_view ts'))
+  else (* body error cancels the event in leave_state: state stays; the server then runs
+          GO_ERROR, which succeeds from a live state, and returns *its* (nil) error *)
+       (mkSys E_ERROR ts' (s_ncalls s),
+        mkSO 5 false false [src; 5] (cmded_view (s_ts s)) (tasks_view ts')).
+
 (* RpcServer.ControlEnvironment with one of the four command transitions *)
 Definition api_control (e : cev) (oc : list outc) (s : sys) : sys * step_obs :=
   let src := N_of_estate (s_env s) in
@@ -192,22 +208,11 @@ Definition api_control (e : cev) (oc : list outc) (s : sys) : sys * step_obs :=
           mkSO 5 false false [src; 5] [] (tasks_view (s_ts s)))
     else (mkSys E_ERROR (s_ts s) (s_ncalls s),
           mkSO 5 true false [src] [] (tasks_view (s_ts s)))
-  else
-    match e, targets (s_ts s) with
-    | CONFIGURE, [] =>
-        (* nothing is sent, the body waits for a TasksStateChangedEvent that never comes *)
-        (s, mkSO src false true [src] [] (tasks_view (s_ts s)))
-    | _, _ =>
-        let ts' := tasks_after e (s_ts s) oc in
-        if res_ok (cmd_result (s_ts s) oc)
-        then (mkSys (ev_dst e) ts' (s_ncalls s),
-              mkSO (N_of_estate (ev_dst e)) false false [src; N_of_estate (ev_dst e)]
-                   (cmded_view (s_ts s)) (tasks_view ts'))
-        else (* body error cancels the event in leave_state: state stays; the server then runs
-                GO_ERROR, which succeeds from a live state, and returns *its* (nil) error *)
-             (mkSys E_ERROR ts' (s_ncalls s),
-              mkSO 5 false false [src; 5] (cmded_view (s_ts s)) (tasks_view ts'))
-    end.
+  else if is_configure e && no_targets (s_ts s) then
+    (* CONFIGURE with no active task: nothing is sent, the body waits for a
+       TasksStateChangedEvent that never comes *)
+    (s, mkSO src false true [src] [] (tasks_view (s_ts s)))
+  else cmd_body e oc s.
 
 (* deployment: every launched-and-running task becomes ACTIVE; DEPLOY succeeds when the root
    status becomes ACTIVE, and fails on UNDEPLOYABLE / workflow ERROR / timeout otherwise *)
